@@ -120,6 +120,8 @@ SP_CFG = {
     "sp_g2sm": (2, 2, ["sun", "moon"], False, False),
     "sp_g3all": (3, 3, ["sun", "moon", "jupiter"], True, True),
     "sp_g8": (8, 8, [], False, False),
+    # solar radiation pressure WITHOUT the Sun among the third bodies (the force model then fetches the Sun itself)
+    "sp_srp": (2, 0, ["moon"], True, False),
 }
 SAT_RATIO = 0.0605  # (1 + 0.21) * 25 m^2 / 500 kg
 A_SRP = 4.56e-6 * SAT_RATIO / 1000.0  # km/s^2 at 1 au: solar pressure 4.56e-6 N/m^2 times (1 + reflectivity) A / m
@@ -233,6 +235,9 @@ def items(tier, seed):
                     continue  # half a day of SP with RK45 costs 4 CPU s per propagation: DOP853 only
                 for ch in _chunks(order, pattern):
                     out.append(["prop", cfg, method, T, t0, jd0, mode, [_orbit(i, seed) for i in ch]])
+    # ---- SRP with the Sun not listed as a third body: start-epoch shifts of a day and a month (RK45: smooth enough)
+    for ch in _chunks(_rot(_sp_orbits(seed, 6), seed)[:4], [1, 1, 1, 1]):
+        out.append(["prop", "sp_srp", "RK45", 3600.0, 31.0 * 86400.0, jd0, "sp_lean", [_orbit(i, seed) for i in ch]])
     # ---- closed-form solver and helpers
     for ch in fw.chunked(all_idx, 15):
         out.append(["universal", [_orbit(i, seed) for i in ch]])
@@ -368,7 +373,8 @@ class _Ctx:
         # displacement a_srp T^2 / 2 (measured on this tree: 9.8e-4 km of 1.8e-3 km for a LEO hour with DOP853, 1e-9 km
         # with RK45).  Configurations with SRP therefore get a_srp T^2 (x2 margin) added; layout / restart / epoch slips
         # (km-level) stay visible, SRP-sized effects do not (the force value itself is C13's subject).
-        srp = kind != "twobody" and SP_CFG[kind][3]
+        # RK45's short steps resolve the penumbra (measured 1e-9 km), so the allowance is for DOP853 only
+        srp = kind != "twobody" and SP_CFG[kind][3] and method == "DOP853"
         self.srp_pos = A_SRP * T * T if srp else 0.0
         self.srp_vel = 2.0 * A_SRP * T if srp else 0.0
 
@@ -689,7 +695,10 @@ def _epoch(ctx, orb, x0, whole, jd):
     # measured sensitivity: the same call with the epoch moved by 1000 s and t NOT compensated
     wit = _call(_dynamics(ctx.kind, ctx.method, jd + 1000.0 / 86400.0).propagate, t0, t0 + T, x0)
     sens = 0.0 if _bad(wit) else fw.maxabs(wit[:3], whole[:3])
-    for d in (EPOCH_SHIFTS if ctx.mode != "sp_lean" else [1000.0, 86400.0]):
+    shifts = EPOCH_SHIFTS if ctx.mode != "sp_lean" else [1000.0, 86400.0]
+    if ctx.kind == "sp_srp":
+        shifts = [86400.0, 30.0 * 86400.0]  # the Sun direction moves ~1 deg/day: a month makes an epoch slip in SRP visible
+    for d in shifts:
         if t0 - d < 0.0:
             continue  # elapsed scenario seconds are non-negative in the property's domain (SP items start at t0 >= 86400 s)
         dyn2 = _dynamics(ctx.kind, ctx.method, jd + d / 86400.0)
